@@ -161,11 +161,11 @@ def run_harness_shard(exe, text, wd, i, ncases, per_case_timeout=20):
     return open(outp).read()
 
 
-def run_both(cases, dbg, driver_exe, harness_exe, wd):
+def run_both(cases, dbg, driver_exe, harness_exe, wd, unst=False):
     """returns {cid: parsed case} with model ('m', 's') and implementation ('i') lines"""
     os.makedirs(wd, exist_ok=True)
     shards = shard(cases, JOBS * 2)
-    texts = ["".join(c.text(dbg) for c in sh_) for sh_ in shards]
+    texts = ["".join(c.text(dbg, unst) for c in sh_) for sh_ in shards]
     res = {}
     with concurrent.futures.ThreadPoolExecutor(max_workers=JOBS) as ex:
         mf = [ex.submit(run_driver_shard, driver_exe, t, wd, i) for i, t in enumerate(texts)]
